@@ -50,6 +50,7 @@ pub fn run_c06(out: &mut Out, tier: &str, seed: u64) {
     let maxlen = 130usize;
     let mut model_sign = if thorough { 24 } else { 6 };
     let mut model_verify = if thorough { 24 } else { 6 };
+    rare_keys(out, &mut rng, if thorough { 400_000 } else { 60_000 });
     for si in 0..nseeds {
         let sd: [u8; 32] = match si { 0 => hexa32("9d61b19deffd5a60ba844af492ec2cc44449c5697b326919703bac031cae7f60"), 1 => [0u8; 32], 2 => [0xff; 32], _ => rng.arr() };
         let (pk, sk) = crypto_sign_seed_keypair(&sd);
@@ -168,6 +169,33 @@ pub fn run_c06(out: &mut Out, tier: &str, seed: u64) {
             }
         }
     }
+}
+
+/// honest keys whose public-key encoding has a rare byte pattern (top byte 0x7f/0x00/0xff, low byte
+/// near 0xed, runs of 0xff / 0x00): sign and verify under them and compare with libsodium
+pub fn rare_keys(out: &mut Out, rng: &mut Rng, scan: usize) {
+    let mut picked = 0;
+    for k in 0..scan {
+        let mut sd = [0u8; 32];
+        sd[..8].copy_from_slice(&(k as u64).to_le_bytes()); sd[8..16].copy_from_slice(&rng.0.to_le_bytes());
+        let (pk, sk) = sodium::sign_seed_keypair(&sd);
+        let top = pk[31] & 0x7f;
+        let ffs = pk[1..31].iter().filter(|x| **x == 0xff).count();
+        let zeros = pk[1..31].iter().filter(|x| **x == 0).count();
+        let rare = top == 0x7f || top == 0 || (pk[0] >= 0xec && (ffs >= 1 || top >= 0x7e)) || ffs >= 2 || zeros >= 2;
+        if !rare { continue; }
+        picked += 1;
+        let (dpk, dsk) = crypto_sign_seed_keypair(&sd);
+        out.search_evaluations += 3;
+        if dpk != pk || dsk != sk { out.hit("sign.seed_keypair.differs-from-libsodium", format!("rare key {}", hx(&pk)), json!({"op":"sign.seed_keypair","seed":hx(&sd)})); }
+        let m = [k as u8, 1, 2];
+        let sig = sodium::sign_detached(&m, &sk);
+        let d = d_verify(&sig, &m, &pk);
+        if !d.is_ok() { out.hit("sign.verify.rejects-honest-signature.rare-public-key", format!("public key {} ({})", hx(&pk), d.class()), json!({"op":"sign.verify_detached","pk":hx(&pk),"msg":hx(&m),"sig":hx(&sig),"seed":hx(&sd)})); }
+        let dp = d_verify_ph(&[&m], &sodium::sign_ph(&[&m], &sk), &pk);
+        if !dp.is_ok() { out.hit("sign.ph.verify.rejects-honest-signature.rare-public-key", format!("public key {}", hx(&pk)), json!({"op":"sign.verify_ph","pk":hx(&pk),"msg":hx(&m),"seed":hx(&sd)})); }
+    }
+    out.notes.insert("rare_public_keys_checked".into(), json!(picked));
 }
 
 pub fn run_c13(out: &mut Out, tier: &str, seed: u64) {
